@@ -74,7 +74,7 @@ def parse_sweep(tier, seed=0):
 
     t0 = time.time()
     cases, fails = 0, []
-    nums = ["1", "5", "10", "0.5", "1.5", "100", "2.25", "1e3", "12"]
+    nums = ["1", "5", "10", "0.5", "1.5", "100", "2.25", "1e3", "12", "2.5e-1", "1e+3", "1E-3", ".5", "1e+16", "7."]
     for u, mult in BYTE_UNITS.items():
         for cu in casings(u):
             for num in nums:
@@ -104,8 +104,9 @@ def parse_sweep(tier, seed=0):
                     if msg and len(fails) < 12:
                         fails.append(rtc.Failure("parse_timedelta", {"s": s}, "ensures", "C18-units-any-case", msg))
     rnd = random.Random(seed)
-    alphabet = "abcxyz019-_#()',. "
-    keys = ["x", "x-1", "x-1-2-3", ("x-2", 1), ("x", 1), "x-abcdefab", b"hello-world-1", None, 5, "x-ffffffff", "hello-world-ffffffffffffffffffffffffffffffff", "", "-", "a--b"]
+    alphabet = "abcxyz019-_#()',. <>\u00b2\u0663\u2460"  # incl. digit-like characters: superscript two, arabic-indic three, circled one
+    keys = ["x", "x-1", "x-1-2-3", ("x-2", 1), ("x", 1), "x-abcdefab", b"hello-world-1", None, 5, "x-ffffffff", "hello-world-ffffffffffffffffffffffffffffffff", "", "-", "a--b",
+            (), ((), 1), ("", 0), b"", ((("x-1",),),), "\u00b2", "\u2460", "a\u00b2", "\u0663", "<>", "_", "()", "''", "-x"]
     for _ in range(3000 if tier == "quick" else 50000):
         ln = rnd.randrange(0, 12)
         s = "".join(rnd.choice(alphabet) for _ in range(ln))
@@ -129,6 +130,6 @@ def parse_sweep(tier, seed=0):
         if msg and len(fails) < 16:
             fails.append(rtc.Failure("key_split", {"key": repr(k)}, "ensures", "C18-total-with-documented-shape", msg))
     return {"function": "dask/utils.py:parse_bytes/parse_timedelta/key_split/natural_sort_key (real code)", "bounded": True,
-            "bound": {"units": "every documented spelling x 5-7 letter casings x 9 numerals x optional space", "keys": len(keys)},
+            "bound": {"units": "every documented spelling x 5-7 letter casings x 15 numerals (decimal, leading-dot, signed and unsigned exponents) x optional space", "keys": len(keys)},
             "cases": cases, "distinct_nontrivial": cases, "failures_found": len(fails), "wall_s": round(time.time() - t0, 2),
             "samples": [{"native_case": {"s": "1.5 Mib"}}], "failures": fails}
